@@ -312,6 +312,58 @@ mod party_sim {
     }
 }
 
+// ---------------------------------------------------------------------------------------------
+// C12: corrupted serialized contexts / values must give Err, never a panic
+fn small_context_json() -> (u64, serde_json::Value) {
+    let c = ciphercore_base::graphs::util::simple_context(|g| { let a = g.input(scalar_type(INT32))?; let b = g.input(scalar_type(INT32))?; a.add(b) }).unwrap();
+    let s = serde_json::to_string(&c).unwrap();
+    let outer: serde_json::Value = serde_json::from_str(&s).unwrap();
+    let ver = outer["version"].as_u64().unwrap();
+    let inner: serde_json::Value = serde_json::from_str(outer["data"].as_str().unwrap()).unwrap();
+    (ver, inner)
+}
+fn try_load_context(ver: u64, inner_text: String) -> std::result::Result<bool, ()> {
+    let outer = json!({"version": ver, "data": inner_text}).to_string();
+    catch_unwind(AssertUnwindSafe(|| serde_json::from_str::<ciphercore_base::graphs::Context>(&outer).is_ok())).map_err(|_| ())
+}
+fn ctx_corrupt(which: &str) -> serde_json::Value {
+    let (ver, inner) = small_context_json();
+    let mut cands: Vec<(String, String)> = vec![];
+    if which == "annotations" {
+        for (field, val) in [("graphs_annotations", json!([[99, []]])), ("nodes_annotations", json!([[[0, 99], []]])), ("nodes_annotations", json!([[[99, 0], []]]))] {
+            let mut m = inner.clone();
+            m[field] = val.clone();
+            cands.push((format!("inner payload with {} = {}", field, val), m.to_string()));
+        }
+    } else {
+        cands.push(("inner payload is not JSON: \"x\"".to_owned(), "x".to_owned()));
+        cands.push(("inner payload truncated".to_owned(), { let t = inner.to_string(); t[..t.len() / 2].to_owned() }));
+        cands.push(("inner payload of the wrong shape: {}".to_owned(), "{}".to_owned()));
+    }
+    // sanity: the unmodified payload loads
+    if try_load_context(ver, inner.to_string()) != Ok(true) { return json!({"found": false, "error": "baseline context does not round-trip"}); }
+    for (what, text) in cands {
+        if try_load_context(ver, text.clone()).is_err() {
+            return json!({"found": true, "routine": format!("ctx_corrupt_{}", which), "property": "C12", "input": {"corruption": what, "version": ver, "data": text.chars().take(300).collect::<String>()},
+                "expected": "Err(..) from serde_json::from_str::<Context>", "observed": "panic", "what": "deserializing a corrupted serialized context"});
+        }
+    }
+    json!({"found": false, "routine": format!("ctx_corrupt_{}", which), "tried": 3})
+}
+fn value_corrupt() -> serde_json::Value {
+    let v = Value::from_scalar(5, INT32).unwrap();
+    let s = serde_json::to_string(&v).unwrap();
+    let outer: serde_json::Value = serde_json::from_str(&s).unwrap();
+    let ver = outer["version"].as_u64().unwrap();
+    for text in ["x", "{}", "[1,2"] {
+        let o = json!({"version": ver, "data": text}).to_string();
+        if catch_unwind(AssertUnwindSafe(|| serde_json::from_str::<Value>(&o).is_ok())).is_err() {
+            return json!({"found": true, "routine": "value_corrupt", "property": "C12", "input": {"version": ver, "data": text}, "expected": "Err(..) from serde_json::from_str::<Value>", "observed": "panic"});
+        }
+    }
+    json!({"found": false, "routine": "value_corrupt", "tried": 3})
+}
+
 fn main() {
     let args: Vec<String> = std::env::args().collect();
     let seed: u64 = args.get(2).and_then(|s| s.parse().ok()).unwrap_or(0);
@@ -319,6 +371,9 @@ fn main() {
     let out = match args.get(1).map(|s| s.as_str()) {
         Some("mux_int") => mux_int(seed),
         Some("mux_panic") => mux_panic(seed),
+        Some("ctx_corrupt_annotations") => ctx_corrupt("annotations"),
+        Some("ctx_corrupt_payload") => ctx_corrupt("payload"),
+        Some("value_corrupt") => value_corrupt(),
         Some("party_sim_c01") => party_sim::run(seed, "C01"),
         Some("party_sim_c02") => party_sim::run(seed, "C02"),
         Some("party_sim_c03") => party_sim::run(seed, "C03"),
